@@ -152,29 +152,68 @@ def build(P, log):
     return res
 
 
-def gate_no_axioms():
-    """grep gate: no Axiom/Admitted/... in the hand-written development"""
+def strip_comments(text):
+    """remove (possibly nested) Coq comments, keeping line structure"""
+    out = []
+    depth = 0
+    i = 0
+    in_str = False
+    while i < len(text):
+        c2 = text[i:i + 2]
+        if depth == 0 and text[i] == '"':
+            in_str = not in_str
+            out.append(text[i])
+            i += 1
+        elif not in_str and c2 == '(*':
+            depth += 1
+            i += 2
+        elif not in_str and depth > 0 and c2 == '*)':
+            depth -= 1
+            i += 2
+        else:
+            if depth == 0 or text[i] == '\n':
+                out.append(text[i])
+            i += 1
+    return ''.join(out)
+
+
+GATE_CMD = re.compile(r'^\s*(#\[[^\]]*\]\s*)?((Local|Global|Polymorphic|Monomorphic|Program)\s+)*'
+                      r'(Axiom|Axioms|Parameter|Parameters|Conjecture|Conjectures|Admitted|Admit\s+Obligations|'
+                      r'Variable|Variables|Hypothesis|Hypotheses|Context)\b')
+GATE_ANY = re.compile(r'\badmit\b|\bAdmitted\b|Unset\s+Guard|bypass_check|type-in-type|impredicative-set|'
+                      r'Unset\s+Universe\s+Checking|Unset\s+Positivity')
+
+
+def gate_no_axioms(dirs=None):
+    """grep gate: no Axiom/Parameter/Conjecture/Admitted/admit, no Variable/Hypothesis outside a Section,
+    no switched-off checks in the hand-written development (dirs: sub-directories of theories; None = all)"""
     bad = []
-    pat = re.compile(r'\b(Admitted|admit|Axiom|Axioms|Parameter|Parameters|Conjecture|Hypothesis|Variable|Variables|Hypotheses)\b|Unset Guard|bypass_check|type-in-type|Admit Obligations')
-    for root, _, files in os.walk(os.path.join(COQ, 'theories')):
+    root0 = os.path.join(COQ, 'theories')
+    for root, _, files in os.walk(root0):
+        rel = os.path.relpath(root, root0).split(os.sep)[0]
+        if dirs is not None and rel not in dirs:
+            continue
         for fn in files:
             if not fn.endswith('.v'):
                 continue
             p = os.path.join(root, fn)
-            depth = 0
             with open(p) as f:
-                for i, line in enumerate(f, 1):
-                    code = re.sub(r'\(\*.*?\*\)', '', line)
-                    if re.match(r'\s*Section\b', code):
-                        depth += 1
-                    if re.match(r'\s*End\b', code) and depth:
-                        depth -= 1
-                    m = pat.search(code)
-                    if m:
-                        w = m.group(0)
-                        if w in ('Variable', 'Variables', 'Hypothesis', 'Hypotheses') and depth > 0:
-                            continue
-                        bad.append(f'{os.path.relpath(p, COQ)}:{i}: {w}')
+                code = strip_comments(f.read())
+            depth = 0
+            for i, line in enumerate(code.split('\n'), 1):
+                if re.match(r'\s*Section\b', line):
+                    depth += 1
+                if re.match(r'\s*End\b', line) and depth:
+                    depth -= 1
+                m = GATE_CMD.match(line)
+                if m:
+                    w = m.group(4)
+                    if w in ('Variable', 'Variables', 'Hypothesis', 'Hypotheses', 'Context') and depth > 0:
+                        continue
+                    bad.append(f'{os.path.relpath(p, COQ)}:{i}: {w}')
+                m = GATE_ANY.search(line)
+                if m:
+                    bad.append(f'{os.path.relpath(p, COQ)}:{i}: {m.group(0)}')
     return bad
 
 
@@ -184,7 +223,7 @@ def check(P, tier, seed):
     known = load_known()
     B = build(P, logs.append)
     broken = list(B['broken'])
-    gate = gate_no_axioms()
+    gate = gate_no_axioms(['Base', 'Gen', P.ID] + list(getattr(P, 'COQ_DIRS', [])))
     if gate:
         broken.append('forbidden declarations: ' + '; '.join(gate[:10]))
 
